@@ -23,6 +23,7 @@ import WpModel.Lemmas.LineVerticalTB
 import WpModel.Lemmas.InlinePreferred
 import WpModel.Lemmas.LineFloats
 import WpModel.Lemmas.LineFloatsInline
+import WpModel.Lemmas.LineFloatsTall
 import WpModel.Lemmas.InlineNoWrap
 import WpModel.Lemmas.InlineSource
 import WpModel.Lemmas.InlineSourceText
@@ -908,6 +909,50 @@ example : (IR.paragraph collapsedPara).toOption.map (fun ls => ls.map (·.w)) = 
 /-- without collapsing nothing is emptied or flagged: under `pre` the same source keeps its three spaces -/
 example : IS.renderL (IS.lineKids .pre [.text "aaa ".toList, .box 0 0 false [.text " ".toList], .text "bbb".toList]) =
       "\"aaa \"[\" \"]\"bbb\"".toList := by
+  decide +kernel
+
+/-! ### lines higher than the strut next to floats: the second pass of `get_next_linebox` -/
+
+/-- **refinement: the second pass is idle when the line is not higher than the strut.**  For every list of
+floats (non-empty), paragraph of nested inline boxes and resume position, when the lines are not higher
+than the strut the line box is first placed with, the model of the `while True` loop of
+`get_next_linebox` (`LFI.nextLineTall`, tied to rendered documents by the float-tall-lines section) is
+the single-pass model `LFI.nextLine` (for which `float_inline_lines_stacked` and, without floats,
+`no_float_is_plain_inline_paragraph` are proved). -/
+theorem tall_loop_single_pass (shapes : List Floats.Shape) (p : IR.Para) (hne : shapes.isEmpty = false)
+    (hle : p.lineHeight ≤ LFI.strutHeight p) (skip : Option IR.Skip) (y : Rat) (first : Bool) :
+    LFI.nextLineTall shapes p (LFI.strutHeight p) p.lineHeight skip y first = LFI.nextLine shapes p skip y first :=
+  LFIL.nextLineTall_eq_nextLine shapes p hne hle skip y first
+
+/-- … and so are all the lines of the paragraph. -/
+theorem tall_lines_are_plain_lines (shapes : List Floats.Shape) (p : IR.Para) (hne : shapes.isEmpty = false)
+    (hle : p.lineHeight ≤ LFI.strutHeight p) (fuel : Nat) (skip : Option IR.Skip) (y : Rat) (first : Bool) :
+    LFI.iterLinesTall shapes p (LFI.strutHeight p) p.lineHeight fuel skip y first =
+      LFI.iterLines shapes p fuel skip y first :=
+  LFIL.iterLinesTall_eq_iterLines shapes p hne hle fuel skip y first
+
+/-- **lines higher than the strut never overlap each other**: whatever the floats, the strut and the line
+height, through every re-layout of the second pass each line starts at or below the bottom of the one
+before (`avoid_collisions` only moves a line down). -/
+theorem tall_lines_stacked (shapes : List Floats.Shape) (p : IR.Para) (strut lineH : Rat) (fuel : Nat)
+    (skip : Option IR.Skip) (y : Rat) (first : Bool) (ls : List IR.OutLine)
+    (h : LFI.iterLinesTall shapes p strut lineH fuel skip y first = some (.ok ls)) : LFIL.StackedBelow y ls :=
+  LFIL.iterLinesTall_stacked shapes p strut lineH fuel skip y first ls h
+
+/-- the family of the float-tall-lines section: strut 10, lines 30 high, a left float 20 × 15 above a left
+float 50 × 40: the first line is first placed at y = 0 beside the narrow float, is 30 high, collides with
+the wide float and is laid out again at y = 55 in the whole 120 (`aaaa bbb cc`, not the `aaaa bbb` that
+fitted beside the floats: seed C09-10) -/
+def tallPara : IR.Para :=
+  { st := { ws := .normal, wb := .normal, ow := .normal, fs := 10 }
+    kids := [.box 0 0 false [.text "aaaa bbb cc ddddd ee fff gggg hh iii jj".toList]]
+    lineHeight := 30, cbx := 0, width := 120, indent := 0
+    align := { alignAll := .start, alignLast := none, ws := .normal, rtl := false }, y := 0 }
+
+example : (LFI.paragraphTall [⟨0, 0, 20, 15, .left⟩, ⟨0, 15, 50, 40, .left⟩] tallPara 10 30).toOption.map
+    (fun ls => ls.map (fun l => (l.x, l.y, l.w))) = some [(0, 55, 110), (0, 85, 120), (0, 115, 110), (0, 145, 20)] := by
+  decide +kernel
+example : emPara.lineHeight ≤ LFI.strutHeight emPara ∧ ([⟨0, 0, 60, 20, .left⟩] : List Floats.Shape).isEmpty = false := by
   decide +kernel
 
 end Wp.C09
